@@ -40,9 +40,9 @@ type worldCfg struct {
 }
 
 type childCfg struct {
-	Info   sim.ResourceInfo
-	Method v1alpha1.ChildUpdateMethod // "" = unset
-	Checks []v1alpha1.StatusConditionCheck
+	Info       sim.ResourceInfo
+	Method     v1alpha1.ChildUpdateMethod // "" = unset
+	Checks     []v1alpha1.StatusConditionCheck
 	NoStrategy bool // leave updateStrategy nil
 }
 
